@@ -353,6 +353,10 @@ def mon_C06(st):
                         and t.S is not None and t.S < j and not finished_before(t, j)
                         and not any(x[0] <= j for x in t.cc) and not any(x[0] <= j for x in t.ec) and t.X is None):
                     out.append(("cancellation-not-delivered", j, f"pool {pi} task {i} never observed CancelledError"))
+                # cancelled before its first step: the worker must never begin
+                if t is not None and t.S is not None and t.S > j and t.first_seen <= j:
+                    out.append(("cancelled-before-its-start-yet-started", t.S,
+                                f"pool {pi} task {i}: cancel() succeeded at step {j}, the worker began at step {t.S}"))
     for pi, ps in enumerate(st.pools):
         if ps.has_hooks or pi in other_cancel:
             continue
@@ -527,6 +531,19 @@ def mon_C09(st):
                 jc, outcome = api_completion(st, pi, a)
                 if jc is not None and outcome == "ok":
                     gac_done[pi] = min(gac_done.get(pi, jc), jc)
+    # lock() holds until unlock(): nothing else (a flush, a task ending, ...) may re-open the pool
+    user_locked = {}
+    for j, toks in enumerate(st.toks):
+        o = st.obs[j]
+        if o is None or not toks:
+            continue
+        for pi, po in enumerate(o["pools"]):
+            if user_locked.get(pi) and pi < len(st.pools) and not st.pools[pi].has_hooks and not po["l"] \
+                    and not (toks[0] == "on" and len(toks) > 2 and int(toks[1]) == pi and toks[2] == "unlock"):
+                out.append(("unlocked-without-unlock", j, f"pool {pi}: is_locked=0 though lock() was called and unlock() was not"))
+                user_locked[pi] = False
+        if toks[0] == "on" and len(toks) > 2 and toks[2] in ("lock", "unlock") and o["r"] == "ok":
+            user_locked[int(toks[1])] = toks[2] == "lock"
     for j, toks in enumerate(st.toks):
         o = st.obs[j]
         if o is None or not toks:
@@ -648,6 +665,32 @@ def mon_C10(st):
             starts[pi] = n + 1
             if o["r"][5:] != f"start-group-{n}":
                 out.append(("generated-name", j, f"pool {pi}: got {o['r'][5:]}, documented start-group-{n}"))
+    # a cancelled group is unknown from then on — until a request is given (or generates) its name again
+    for pi, ps in enumerate(st.pools):
+        if ps.has_hooks:
+            continue
+        dead = {}
+        for j, toks in enumerate(st.toks):
+            o = st.obs[j]
+            if o is None or pi >= len(o["pools"]):
+                continue
+            prev = st.prev_obs(j)
+            mine = bool(toks) and toks[0] == "on" and len(toks) > 2 and int(toks[1]) == pi
+            if mine and o["r"].startswith("name:"):
+                dead.pop(o["r"][5:], None)
+            if mine and o["r"] == "ok" and prev is not None and pi < len(prev["pools"]):
+                if toks[2] == "cancel_group":
+                    dead[toks[3]] = j
+                elif toks[2] == "cancel_all":
+                    for n, ids in prev["pools"][pi]["g"].items():
+                        if ids is not None:
+                            dead[n] = j
+            known = o["pools"][pi]["g"]
+            for n in list(dead):
+                if known.get(n) is not None:
+                    out.append(("cancelled-group-still-known", j,
+                                f"pool {pi}: {n} was cancelled at step {dead[n]} and not requested again, ids {known[n]}"))
+                    del dead[n]
     # every task belongs to the group whose name was returned by the call that requested it
     for pi, ps in enumerate(st.pools):
         for r in ps.reqs:
@@ -761,6 +804,13 @@ def mon_C13(st):
                     out.append(("task-forgotten-inside-cancel-callback", j,
                                 f"pool {pi}: num_cancelled {prevpo['c']} -> {po['c']} with {done} callbacks completing"))
             prevpo = po
+            # a task inside its end callback is filed as ended and stays so until the callback is over
+            if not any(k == "gac" for (k, _, _) in ps.apis):
+                inside = sum(1 for t in ps.tasks.values()
+                             if sum(1 for x in t.ec if x[0] <= j) > sum(1 for d in t.edone if d[0] <= j))
+                if po["e"] < inside:
+                    out.append(("task-forgotten-inside-end-callback", j,
+                                f"pool {pi}: num_ended={po['e']} with {inside} tasks inside their end callbacks"))
         for a, (kind, re_, j0) in enumerate(ps.apis):
             if kind != "flush":
                 continue
@@ -827,6 +877,10 @@ def mon_C14(st):
             if (t is not None and qj is not None and j <= qj and ps.spec["mode"] == "g" and t.S is not None and t.S < j
                     and not finished_before(t, j) and t.X is None and not any(x[0] <= j for x in t.cc)):
                 out.append(("stopped-task-not-cancelled", j, f"pool {pi} task {i}"))
+            # stopped before its first step: the worker must never begin
+            if t is not None and t.S is not None and t.S > j and t.first_seen <= j:
+                out.append(("stopped-before-its-start-yet-started", t.S,
+                            f"pool {pi} task {i}: stop() returned it at step {j}, its worker began at step {t.S}"))
     return out
 
 
